@@ -480,7 +480,9 @@ package mcp
 //@   counted handled
 //@   modifies *, handled
 //@ func requestHandler.handleNotification
-//@   modifies *, handled
+//@   counted nhandles
+//@   records lastnerr ret0
+//@   modifies *, handled, nhandles, lastnerr
 //@
 //@ func httpServerHandler.isValidPath
 //@   pure
@@ -513,7 +515,7 @@ package mcp
 //@   ensures[C03,C06] status(w) != 0
 //@ func httpServerHandler.handlePostNotification
 //@   requires status(w) == 0
-//@   modifies *, status(w), hval, handled
+//@   modifies *, status(w), hval, handled, nhandles, lastnerr
 //@   ensures[C03,C06] status(w) != 0
 //@   ensures[C03 handler-failure-is-500] true
 //@ func httpServerHandler.handlePostResponse
@@ -1411,4 +1413,9 @@ package mcp
 // C17 — WithRetry clamps exactly the values the caller gave (no defaults substituted for zeros) and installs the result
 //@ func WithRetry$1
 //@   before call Validate#1 assert[C17 the-callers-values-are-what-gets-clamped] arg0.MaxRetries == config.MaxRetries && arg0.InitialBackoff == config.InitialBackoff && same(arg0.BackoffFactor, config.BackoffFactor) && arg0.MaxBackoff == config.MaxBackoff
+//@
+//@ func WithRetry
+//@   sweep[C17] paramsro
+//@ func WithSimpleRetry
+//@   sweep[C17] paramsro
 //@
